@@ -24,6 +24,8 @@ func init() {
 		Assume:  []string{"that index i is *the* block containing the prefix (C20 arithmetic)"},
 		Run: func(c *Ctx) {
 			ruleAlloc(c, "C06.", map[string]bool{"FREE": true, "LOCK": true})
+			ruleArith(c, "C06.") // the index of the block: limb arithmetic of Offset must at least be well-formed
+			ruleLinMap(c, "C06.")
 			c.R.Floor("C06.FREE.TESTCLEAR", 2)
 			c.R.Floor("C06.FREE.CONTAIN", 4)
 			c.R.Floor("C06.FREE.ERR-NOEFFECT", 2)
@@ -36,6 +38,7 @@ func init() {
 		Assume:  []string{"that the hint's index is the index of the hinted block (arithmetic, C05/C20)"},
 		Run: func(c *Ctx) {
 			ruleAlloc(c, "C07.", map[string]bool{"HINT": true})
+			ruleLinMap(c, "C07.") // a hint at either end of the range must convert to its own index
 			ruleHintCallers(c, "C07.HINT.CALLERS")
 			c.R.Floor("C07.HINT.FIRST", 4)
 			c.R.Floor("C07.HINT.CALLERS", 2)
@@ -94,6 +97,7 @@ func init() {
 		Run: func(c *Ctx) {
 			ruleRangeHandler(c, "C02.", map[string]bool{"C02": true})
 			ruleRangeRestart(c, "C02.RANGE.RESTART")
+			ruleDBLoad(c, "C02.") // "with restarts in between": the restored map must be keyed like the handler's lookups
 			ruleGuardedBy(c, "C02.")
 			c.R.Floor("C02.RANGE.LOOKUP-FIRST", 1)
 			c.R.Floor("C02.RANGE.INSERT", 1)
@@ -131,6 +135,7 @@ func init() {
 		Assume:  []string{"in-pool / alignment / size of the allocator's answers (C05/C20)", "lifetimes > 0 after codec rounding"},
 		Run: func(c *Ctx) {
 			rulePrefix(c, "C08.", map[string]bool{"C08": true})
+			ruleAlloc(c, "C08.", map[string]bool{"TESTSET": true, "SAMEINDEX": true, "LOCK": true}) // disjointness across clients rests on the allocator
 			for _, r := range []string{"PD.PROVENANCE", "PD.OWN-KEY", "PD.ONE-PER-IAPD", "PD.NOPREFIX", "PD.LIFETIME", "PD.FRESH", "PD.LOCK"} {
 				c.R.Floor("C08."+r, 1)
 			}
